@@ -545,6 +545,42 @@ func c03r3(c *core.Ctx) {
 	if ok && !unknown && m.guardOK[finish] {
 		c.Check(vals[m.guard[finish]], "chain:"+fname(finish), finish.Pos(), "finish is enabled by the constant the start handler stores", "the guard constant of the finish handler is never stored by the start handler")
 	}
+	// a rejected start request does not open an exchange: no exit of the start handler that reports an error (no response container,
+	// or a non-nil error) leaves the step at the constant that enables the finish handler. With the step advanced first and the request
+	// validated afterwards, the finish that follows is checked against whatever the session still holds — the keys of an earlier,
+	// aborted exchange, or zeros.
+	if m.guardOK[finish] {
+		enabling := m.guard[finish]
+		nfail, badStart := 0, 0
+		var w core.Path
+		okEnum := core.EnumPaths(start, 2, 20000, func(pa core.Path) {
+			ret := pa.Returns()
+			if ret == nil || len(res(ret)) != 2 {
+				return
+			}
+			r0 := pa.ResolveAt(len(pa)-1, res(ret)[0])
+			r1 := pa.ResolveAt(len(pa)-1, res(ret)[1])
+			failing := core.IsNilConst(r0) || provablyNonNil(pa, r1)
+			if !failing {
+				return
+			}
+			nfail++
+			set, known, v := stepOnPath(pa, tVerifyCtrl, "step", nil)
+			if set && (!known || v == enabling) {
+				if badStart == 0 {
+					w = pa
+				}
+				badStart++
+			}
+		})
+		if !okEnum {
+			c.Undecided("rejected-start-opens-nothing@"+fname(start), start.Pos(), "too many paths")
+		} else if badStart > 0 {
+			c.BadPath("rejected-start-opens-nothing@"+fname(start), start.Pos(), w.Describe(p), "%d failing exit(s) of the start handler leave step == %d, the state in which a finish request is accepted: after a start request that was answered with an error, a finish is validated against the keys of an earlier exchange (or none) and can verify the connection", badStart, enabling)
+		} else {
+			c.OK("rejected-start-opens-nothing@"+fname(start), start.Pos(), "none of the %d failing exits of the start handler leaves the finish-enabling state", nfail)
+		}
+	}
 	// reset on every exit of Handle that went through the finish handler: final step == reset constant
 	rsVal, _, rsOK := resetState(p, "VerifyServerController", tVerifyCtrl)
 	if !rsOK {
